@@ -10,7 +10,8 @@
    byte-exact generator correspondence and judged on the reference machine. *)
 From Coq Require Import ZArith List String Bool.
 From Gigue Require Import Types Bits Isa Enc GenTables Builder BuilderTies Samplers Generator Machine MachineLemmas
-  SplitProofs FragProofs GenLemmas ImageSem CtorSpec C12Defs C12Proofs.
+  SplitProofs FragProofs GenLemmas ImageSem CtorSpec C12Defs C12Proofs GenWF5 BodyExec CodeMem MethodContract SaveRestore WholeImage Loader
+  CallFrameRimi MethodContractRimi RimiFullExec WholeImageRimiFull LoaderRimiFull.
 Import ListNotations.
 Open Scope Z_scope.
 
@@ -64,6 +65,51 @@ Theorem C10_interp_pic_call_switches_domain_partial : forall L s A off toff h hi
     (forall r, 0 <= r -> r <> 1 -> r <> c_CALL_TMP_REG -> r <> hit -> rget s' r = rget s r).
 Proof. exact rimi_interp_pic_call_reaches. Qed.
 
+(* PROVED (Layer B), RIMI full, WHOLE IMAGE over the emitted files
+   (LoaderRimiFull.rimifull_image_from_files): for every accepted configuration,
+   decision script and emitted image, from ImageSem.Init (domain 0, files at the
+   generation address, t3 at the top of the emitted shadow stack, call chains
+   within its capacity) the run on the reference machine, whose monitors enforce
+   exactly the discipline of C10 -
+     fetch:   an instruction below jit_lo is fetched in domain 0, one at or above
+              it in domain 1 (FDomainFetch otherwise);
+     chdom:   only from domain 0, only to a target inside the JIT region;
+     retdom:  only from domain 1, only to the interpreter region (or the halt address);
+     duplicated loads / stores: only in domain 1 and only inside the data section;
+     base loads / stores: never inside the data section (FDomainAccess) -
+   ends at the halt address WITHOUT ANY FAULT, in domain 0: control enters JIT
+   code only through the chdom of an interpreter stub into the call trampoline
+   and leaves it only through the retdom of the return trampoline, strictly
+   alternating (the executed sequence is prologue, then per element: stub ending
+   in chdom, call trampoline, element, return trampoline ending in retdom, then
+   the epilogue); every access JIT code makes to the data section is a duplicated
+   one made in domain 1. *)
+Theorem C10_rimifull_whole_image : forall c script img,
+  successful c script img -> c_variant c = GRimiFull -> c_data_reg c <> 6 ->
+  forall L s0, Init c img (fNtot c img) L s0 -> code_lo L = int_start_al c ->
+    code_hi L - code_lo L < 2147483648 - 2048 -> pics_encodable img ->
+    FSW img <= zlen (im_ss img) ->
+    (forall r o, In (r, o) int_slots -> 0 <= rget s0 r < W64) ->
+    exists s' eh, map fst eh = im_elements img /\ Forall (fun x => fhit_ok (fst x) (snd x)) eh /\
+      run (gv c) L (fimage_steps img eh) s0 = (Next s', fimage_steps img eh) /\ pc s' = halt_at L /\
+      (forall r, 0 <= r -> wr c r = false -> ~ fclob c r -> rget s' r = rget s0 r) /\
+      rget s' 28 = ss_hi L /\
+      rmem_frame c L s0 s' (stk_hi L - fNtot c img) (stk_hi L) (ss_hi L - FSW img) (ss_hi L) /\ dom s' = 0 /\ cfi s' = [].
+Proof. exact rimifull_image_from_files. Qed.
+
+(* the method contract in the JIT domain (both RIMI variants; for RIMI full
+   `env_ok` says dom = 1 at entry and at exit: a method never leaves the JIT domain) *)
+Theorem C10_methods_stay_in_jit_domain_partial : forall c script img,
+  successful c script img -> rimi c ->
+  forall L, rplaced c img L ->
+  forall id m, nth_error (im_methods img) id = Some m ->
+  rcontract c img L (need_method c (im_methods img) (max_depth (im_methods img)) id)
+            (ss_need (im_methods img) (max_depth (im_methods img)) id)
+            (steps_method (im_methods img) (max_depth (im_methods img)) id) m.
+Proof. exact every_rimi_method_returns. Qed.
+
+Print Assumptions C10_rimifull_whole_image.
+Print Assumptions C10_methods_stay_in_jit_domain_partial.
 Print Assumptions C10_domain_fragments_partial.
 Print Assumptions C10_interp_call_switches_domain_partial.
 Print Assumptions C10_interp_pic_call_switches_domain_partial.
